@@ -40,6 +40,7 @@ type Conn struct {
 	FailWrite    int  // index of the Write call that fails (-1: never)
 	FailDeadline int  // index of the Set*Deadline call that fails (-1: never)
 	DataWithErr  bool
+	Cuts         []int // stream offsets at which a segment ends (if set, replaces the nondeterministic chunking)
 	MaxChunks    int // >0: the MaxChunks-th read delivers everything still available (bounds the number of chunks)
 
 	Out        []byte
@@ -98,7 +99,14 @@ func (c *Conn) Read(b []byte) (int, error) {
 		max = avail
 	}
 	n := max
-	if c.MaxChunks == 0 || idx < c.MaxChunks-1 {
+	if len(c.Cuts) > 0 {
+		// deliver up to the next cut position (harness-chosen segment boundaries)
+		for _, cut := range c.Cuts {
+			if cut > c.Rpos && cut-c.Rpos < n {
+				n = cut - c.Rpos
+			}
+		}
+	} else if c.MaxChunks == 0 || idx < c.MaxChunks-1 {
 		n = IntRange("chunk_"+c.Name, 1, max)
 	}
 	copy(b, c.In[c.Rpos:c.Rpos+n])
